@@ -1346,6 +1346,10 @@ func (st *Runtime) evaluateArgs(fnType reflect.Type, args CallArgs, pipedArg *re
 		}
 	}
 
+	if args.HasPipeSlot && pipedArg == nil {
+		return nil, fmt.Errorf("call to %s uses the pipe slot marker '_' but there is no piped value", fnType)
+	}
+
 	argValues := make([]reflect.Value, numArgs)
 	slot := 0 // index in argument values (evaluated expressions combined with piped argument if applicable)
 
